@@ -43,12 +43,18 @@ def _argv_obs(kernel, fn, what):
 
 
 # ---- K2/K3: loader -------------------------------------------------------
-def _mk_classes(t1, t2, tc, tb, u1, uc):
+def _mk_classes(t1, t2, tc, tb, u1, uc, ti=False):
     """Two classes built per path: C (test_a, test_b) on a possibly tagged base, D (test_x)."""
     class Base(unittest.TestCase):
         pass
     if tb:
         Base = tag(Base)
+
+    def mi(self):
+        pass
+    if ti:
+        mi = tag(mi)
+    Base.test_i = mi            # a test method C inherits rather than defines
 
     def m1(self):
         pass
@@ -73,13 +79,13 @@ def _mk_classes(t1, t2, tc, tb, u1, uc):
     return C, D
 
 
-def k2_names(t1: bool, t2: bool, tc: bool, tb: bool) -> bool:
+def k2_names(t1: bool, t2: bool, tc: bool, tb: bool, ti: bool) -> bool:
     """
     post: __return__
     """
-    C, D = _mk_classes(t1, t2, tc, tb, False, False)
+    C, D = _mk_classes(t1, t2, tc, tb, False, False, ti)
     got = list(rtc.TaggedTestLoader(False).getTestCaseNames(C))
-    want = [n for n, t in (('test_a', t1), ('test_b', t2)) if t or tc or tb]
+    want = [n for n, t in (('test_a', t1), ('test_b', t2), ('test_i', ti)) if t or tc or tb]
     return got == want
 
 
@@ -92,13 +98,13 @@ def _flatten(suite, out):
     return out
 
 
-def k3_suite(t1: bool, t2: bool, tc: bool, tb: bool, u1: bool, uc: bool, check: bool, how: int) -> bool:
+def k3_suite(t1: bool, t2: bool, tc: bool, tb: bool, u1: bool, uc: bool, check: bool, how: int, ti: bool) -> bool:
     """
     pre: 0 <= how < 4
     post: __return__
     """
     import types
-    C, D = _mk_classes(t1, t2, tc, tb, u1, uc)
+    C, D = _mk_classes(t1, t2, tc, tb, u1, uc, ti)
     mod = types.ModuleType('vpmod')
     mod.C = C
     mod.D = D
@@ -113,7 +119,7 @@ def k3_suite(t1: bool, t2: bool, tc: bool, tb: bool, u1: bool, uc: bool, check: 
     else:
         suite = loader.loadTestsFromName('C', mod)
     got = sorted(_flatten(suite, []))
-    wantC = ['C.' + n for n, t in (('test_a', t1), ('test_b', t2)) if t or tc or tb]
+    wantC = ['C.' + n for n, t in (('test_a', t1), ('test_b', t2), ('test_i', ti)) if t or tc or tb]
     wantD = ['D.test_x'] if (u1 or uc) else []
     if how == 3:
         wantD = []
@@ -183,12 +189,12 @@ OBLIGATIONS = _argv_obs(
     'with tagged/check set iff -1/--tagged resp. -0/--istagged occurs anywhere')
 OBLIGATIONS += [
     Ob('K2', 'k2_names', 'TaggedTestLoader.getTestCaseNames returns exactly the methods tagged themselves, or all '
-       'when the class or a base class is tagged', 'class with 2 test methods; 4 symbolic tag booleans (method a, '
-       'method b, class, base class)', timeout=60),
+       'when the class or a base class is tagged', 'class with 2 own test methods and 1 inherited; 5 symbolic tag booleans (method a, '
+       'method b, inherited method, class, base class)', timeout=60),
     Ob('K3', 'k3_suite', 'loading through the tagged loader (module / names / per-class / single name): run mode '
        'keeps exactly the tagged tests, each once, prints nothing; list mode keeps no test and prints exactly the '
        'classes holding a tagged test, each once',
-       'two generated TestCase classes (2+1 methods), 6 symbolic tag booleans, check flag, 4 loading routes',
+       'two generated TestCase classes (2 own + 1 inherited, and 1 method), 7 symbolic tag booleans, check flag, 4 loading routes',
        timeout=240),
     Ob('K4', 'k4_pytest', 'referencepytest.tagged leaves exactly the tagged items under --tagged, none under '
        '--istagged (printing each tagged class/function once), all otherwise',
